@@ -3,7 +3,10 @@
 package peer
 
 import (
+	"net/netip"
+
 	"github.com/jech/storrent/bitmap"
+	"github.com/jech/storrent/pex"
 	"github.com/jech/storrent/protocol"
 	"github.com/jech/storrent/tor/piece"
 )
@@ -207,4 +210,72 @@ func H_C11_advert_haves() {
 	}
 	vAssert(nhave == 1, "exactly one have")
 	vAssert(nnone == vIte(p.canFast, 1, 0), "have-none iff Fast")
+}
+
+// ---- peer exchange ----
+
+func vPexAddr(k int) netip.AddrPort {
+	return netip.AddrPortFrom(netip.AddrFrom4([4]byte{192, 0, 2, byte(1 + k)}), 6881)
+}
+
+var vPexOpNames = []string{"op0", "op1", "op2", "op3", "op4"}
+var vPexWhoNames = []string{"who0", "who1", "who2", "who3", "who4"}
+var vPexFlagNames = []string{"fl0", "fl1", "fl2", "fl3", "fl4"}
+
+// H_C11_pex_hist: histories of peer-set changes and PEX rounds (parameter steps <= 5) over 2
+// distinct neighbours with arbitrary flags. Ghost state: `told` = what the remote has been told
+// and not been told to drop; `cur` = the real current neighbour set. Every message the REAL
+// sendPex writes is applied to `told`:  never a drop for a peer not told, never an add for a
+// peer already told; and after the history plus two successful rounds told == cur.
+func H_C11_pex_hist() {
+	pcs := &piece.Pieces{}
+	pcs.MetadataComplete(16384, 16384)
+	p, _ := vMkPeer(pcs)
+	p.pexExt = 1
+	var told, cur [2]bool
+	apply := func() {
+		for len(p.writer) > 0 {
+			m, ok := (<-p.writer).(protocol.ExtendedPex)
+			vAssert(ok, "sendPex writes only PEX messages")
+			for _, a := range m.Added {
+				for k := 0; k < 2; k++ {
+					if a.Addr == vPexAddr(k) {
+						vAssert(!told[k], "never announces a peer twice")
+						told[k] = true
+					}
+				}
+			}
+			for _, d := range m.Dropped {
+				for k := 0; k < 2; k++ {
+					if d.Addr == vPexAddr(k) {
+						vAssert(told[k], "never drops a peer that was not announced")
+						told[k] = false
+					}
+				}
+			}
+		}
+	}
+	steps := vParam("steps")
+	for s := 0; s < steps; s++ {
+		op := vChoose(vPexOpNames[s], 0, 2)
+		switch op {
+		case 0: // neighbour arrives (or is re-announced, possibly with other flags)
+			k := vChoose(vPexWhoNames[s], 0, 1)
+			handleEvent(p, PeerPex{Peers: []pex.Peer{{Addr: vPexAddr(k), Flags: vU8(vPexFlagNames[s])}}, Add: true})
+			cur[k] = true
+		case 1: // neighbour leaves (tor.delPeer reports it without flags)
+			k := vChoose(vPexWhoNames[s], 0, 1)
+			handleEvent(p, PeerPex{Peers: []pex.Peer{{Addr: vPexAddr(k), Flags: vU8(vPexFlagNames[s])}}, Add: false})
+			cur[k] = false
+		case 2: // the minute tick
+			sendPex(p)
+			apply()
+		}
+	}
+	sendPex(p)
+	apply()
+	sendPex(p)
+	apply()
+	vReach("end")
+	vAssert(told[0] == cur[0] && told[1] == cur[1], "after the last change and two rounds the remote's view is the neighbour set")
 }
